@@ -1693,7 +1693,9 @@ def _make_eq_script(attrs: list) -> tuple[str, dict]:
         "        return NotImplemented",
     ]
 
-    globs = {}
+    # NotImplemented is passed explicitly, such that a same-named global of the
+    # class's module can't shadow it.
+    globs = {"NotImplemented": NotImplemented}
     if attrs:
         lines.append("    return  (")
         for a in attrs:
